@@ -8,6 +8,7 @@ mod py;
 mod refm;
 mod spec;
 mod util;
+mod watch;
 mod world;
 
 use util::Tier;
